@@ -131,7 +131,13 @@ pub fn selftest(ctx: &Ctx, full: bool) -> Result<usize, String> {
     let mut n = crate::refnum::selftest_i128(ctx.seed ^ 0x9E3779B97F4A7C15)?;
     n += crate::refparse::selftest()?;
     n += crate::refexec::selftest()?;
-    let _ = full;
+    if full {
+        // python3 integers / fractions as the independent root of trust for the reference arithmetic
+        let recs = crate::pyoracle::reference_records(ctx.seed ^ 0x5DEECE66D, 3000);
+        let lines = recs.lines().count();
+        crate::pyoracle::run_python(&ctx.verif, &ctx.scratch, &recs, "refnum").map_err(|e| format!("python cross-check of the reference arithmetic failed:\n{}", e))?;
+        n += lines;
+    }
     Ok(n)
 }
 
